@@ -252,7 +252,7 @@ func runC03(c *core.Ctx) {
 	// all single deviations x configurations (several random configurations per deviation)
 	reps := c.Pick(6, 60)
 	for field := 0; field < 8; field++ {
-		for variant := 0; variant < 13; variant++ {
+		for variant := 0; variant < 32; variant++ {
 			for rep := 0; rep < reps; rep++ {
 				if !mine() {
 					continue
